@@ -76,7 +76,14 @@ theorem chunks_sizes (n : Nat) (hn : 0 < n) (xs : List α) :
     (∀ c ∈ chunks n xs, 0 < c.length ∧ c.length ≤ n) ∧ (∀ c ∈ (chunks n xs).dropLast, c.length = n) :=
   chunksAux_sizes n hn _ xs (Nat.le_refl _)
 
-theorem fetch_eq (item : Nat → α) : fetch item = List.map item := rfl
+theorem fetch_eq (item : Nat → α) : fetch item = List.map item := by
+  funext idxs
+  simp [fetch, fetchDirect, Params.dsCollateInOrder, Params.dsFastTdDirect, Params.dsFastGenDirect]
+
+theorem extraIdx_eq (i : Nat) : extraIdx i = i := by simp [extraIdx, Params.dsExtraIndexShift]
+
+theorem extraItem_eq (item : Nat → α) (extra : Nat → β) : extraItem item extra = fun i => (item i, extra i) := by
+  funext i; simp [extraItem, extraIdx_eq]
 
 theorem chunksAux_mem (n fuel : Nat) (xs : List α) :
     ∀ c ∈ chunksAux n fuel xs, ∀ a ∈ c, a ∈ xs := by
@@ -137,7 +144,7 @@ sequential evaluation loader gives, at position `i`, the reward of instance `i` 
 evaluation batch size, dividing the set size or not. -/
 theorem rollout_aligned (f : List α → List β) (g : α → β) (hf : ∀ xs, f xs = xs.map g) (bs : Nat)
     (hbs : 0 < bs) (ds : List α) : rollout f bs ds = ds.map g := by
-  simp only [rollout]
+  simp only [rollout, Params.blRolloutLoaderPlain, Params.blRolloutPlainConcat, Bool.and_self, if_true]
   have : (chunks bs ds).map f = (chunks bs ds).map (List.map g) := List.map_congr_left (fun c _ => hf c)
   rw [this, ← List.map_flatten, chunks_flatten bs hbs]
 
@@ -151,7 +158,7 @@ baseline policy's reward on instance `i`. -/
 theorem wrap_aligned (f : List α → List β) (g : α → β) (hf : ∀ xs, f xs = xs.map g) (bs : Nat)
     (hbs : 0 < bs) (ds : List α) (d : α) (dB : β) (i : Nat) (hi : i < ds.length) :
     wrapItem f bs ds d dB i = (ds[i], g ds[i]) := by
-  simp only [wrapItem, extraItem, rollout_aligned f g hf bs hbs]
+  simp only [wrapItem, extraItem, extraIdx_eq, rollout_aligned f g hf bs hbs]
   simp [List.getD_eq_getElem?_getD, hi]
 
 /-- **C17 `wrap_travels`**: through any sampler order over valid indices and any training batch
@@ -201,10 +208,15 @@ theorem Dict.get?_set_other (d : Dict β) (k k' : String) (v : β) (h : k' ≠ k
 /-- **C17 `rewrap_current`**: whatever happened to the shared items before (any earlier wrappers, any
 reads — `st` is arbitrary), reading item `i` through a wrapper returns the CURRENT wrapper's value under
 its key and leaves every other entry of the item as it was. -/
+theorem readExtra_eq (st : Store β) (key : String) (extra : Nat → β) (i : Nat) :
+    (readExtra st key extra i).2 = (st.getD i []).set key (extra i) := by
+  simp [readExtra, Params.dsExtraWriteUnconditional, extraIdx_eq]
+
 theorem rewrap_current (st : Store β) (key : String) (extra : Nat → β) (i : Nat) :
     ((readExtra st key extra i).2).get? key = some (extra i) ∧
-    ∀ k', k' ≠ key → ((readExtra st key extra i).2).get? k' = (st.getD i []).get? k' :=
-  ⟨Dict.get?_set_same _ _ _, fun k' h => Dict.get?_set_other _ _ _ _ h⟩
+    ∀ k', k' ≠ key → ((readExtra st key extra i).2).get? k' = (st.getD i []).get? k' := by
+  rw [readExtra_eq]
+  exact ⟨Dict.get?_set_same _ _ _, fun k' h => Dict.get?_set_other _ _ _ _ h⟩
 
 /-- the same for a whole pass over any index list (any order, repeated indices allowed), from any store -/
 theorem readMany_current (st : Store β) (key : String) (extra : Nat → β) (idxs : List Nat) :
@@ -213,11 +225,85 @@ theorem readMany_current (st : Store β) (key : String) (extra : Nat → β) (id
   | nil => rfl
   | cons i is ih =>
     simp only [readMany, List.map_cons]
-    rw [ih]
+    rw [ih, readExtra_eq]
     congr 1
     exact Dict.get?_set_same _ _ _
 
+/-! ### the module's loader and `EvalBase.__call__` -/
+
+/-- `_dataloader_single(dataset, bs, shuffle=False)` reads sequentially -/
+theorem moduleOrder_sequential (n : Nat) (perm : List Nat) : moduleOrder false n perm = List.range n := by
+  simp [moduleOrder, Params.loaderShufflePassthrough]
+
+theorem moduleOrder_shuffle (n : Nat) (perm : List Nat) : moduleOrder true n perm = perm := by
+  simp [moduleOrder, Params.loaderShufflePassthrough]
+
+theorem padRow_eq (L : Nat) (row : List Int) : padRow L row = row ++ List.replicate (L - row.length) 0 := by
+  simp [padRow, Params.evalPadLeft]
+
+theorem maxLen_foldl_ge (rows : List (List Int)) (m : Nat) :
+    m ≤ rows.foldl (fun m r => max m r.length) m ∧
+    ∀ r ∈ rows, r.length ≤ rows.foldl (fun m r => max m r.length) m := by
+  induction rows generalizing m with
+  | nil => simp
+  | cons x xs ih =>
+    obtain ⟨h1, h2⟩ := ih (max m x.length)
+    simp only [List.foldl_cons]
+    refine ⟨by omega, ?_⟩
+    intro r hr
+    rcases List.mem_cons.mp hr with rfl | hr
+    · omega
+    · exact h2 r hr
+
+theorem le_maxLen {rows : List (List Int)} {r : List Int} (h : r ∈ rows) : r.length ≤ maxLen rows :=
+  (maxLen_foldl_ge rows 0).2 r h
+
+/-- **C17 `eval_call_aligned`**: for a row-wise `_inner` (`g x` = reward and action row of instance `x`)
+and ANY batching of the instances (any batch sizes, final partial batch, per-batch action lengths that
+differ): entry `i` of the concatenated rewards is instance `i`'s reward, row `i` of the concatenated
+actions is instance `i`'s action row followed by zeros only, and all rows have the common length. -/
+theorem eval_call_aligned (inner : List α → List (β × List Int)) (g : α → β × List Int)
+    (h : ∀ xs, inner xs = xs.map g) (batches : List (List α)) :
+    let rows := batches.flatten.map (fun x => (g x).2)
+    (evalCall inner batches).1 = batches.flatten.map (fun x => (g x).1) ∧
+    (evalCall inner batches).2 =
+      batches.flatten.map (fun x => (g x).2 ++ List.replicate (maxLen rows - (g x).2.length) 0) ∧
+    ∀ r ∈ (evalCall inner batches).2, r.length = maxLen rows := by
+  intro rows
+  have h1 : (batches.map inner) = batches.map (List.map g) := List.map_congr_left (fun c _ => h c)
+  have hr : ((batches.map inner).map (fun o => o.map Prod.snd)).flatten = rows := by
+    rw [h1]; simp only [rows, List.map_map, List.map_flatten]
+    congr 1; apply List.map_congr_left; intro c _; simp [Function.comp]
+  have hf : ((batches.map inner).map (fun o => o.map Prod.fst)).flatten = batches.flatten.map (fun x => (g x).1) := by
+    rw [h1]; simp only [List.map_map, List.map_flatten]
+    congr 1; apply List.map_congr_left; intro c _; simp [Function.comp]
+  have e2 : (evalCall inner batches).2 =
+      batches.flatten.map (fun x => (g x).2 ++ List.replicate (maxLen rows - (g x).2.length) 0) := by
+    simp only [evalCall, Params.evalCatInOrder, if_true, hr]
+    simp only [rows, List.map_map]
+    apply List.map_congr_left
+    intro x _
+    exact padRow_eq _ _
+  refine ⟨?_, e2, ?_⟩
+  · simp only [evalCall, Params.evalCatInOrder, if_true, hf]
+  · intro r hr'
+    rw [e2] at hr'
+    obtain ⟨x, hx, rfl⟩ := List.mem_map.mp hr'
+    have : (g x).2.length ≤ maxLen rows := le_maxLen (List.mem_map.mpr ⟨x, hx, rfl⟩)
+    simp only [List.length_append, List.length_replicate]; omega
+
+/-- … in particular over the batches of a sequential loader: the evaluation returns one reward / action
+row per instance of the data set, in the data set's order. -/
+theorem eval_call_roundtrip (inner : List α → List (β × List Int)) (g : α → β × List Int)
+    (h : ∀ xs, inner xs = xs.map g) (bs : Nat) (hbs : 0 < bs) (ds : List α) (d : α) :
+    (evalCall inner (loader bs (List.range ds.length) (fun i => ds.getD i d))).1 = ds.map (fun x => (g x).1) := by
+  rw [(eval_call_aligned inner g h _).1, loader_roundtrip bs hbs]
+
 /-! ### non-vacuity -/
+
+example : padRow 4 [7, 8] = [7, 8, 0, 0] := by decide
+example : evalCall (fun xs : List Nat => xs.map (fun x => (10 * x, List.replicate (1 + xs.length) (Int.ofNat x))))
+    [[1, 2], [3]] = ([10, 20, 30], [[1, 1, 1], [2, 2, 2], [3, 3, 0]]) := by decide
 
 /-- wrap with 100+i, read, wrap the same store with 200+i, read: the second pass sees 200+i -/
 example :
